@@ -84,3 +84,12 @@ CURVE_BITS_UNNAMED = {"EcdhX25519": 253}
 # "Display/Debug text (for the types that print names)" - Debug of these must format through Display
 DEBUG_PRINTS_NAMES = ["tls_record::TlsRecordType", "tls_handshake::TlsHandshakeType", "tls_handshake::TlsVersion", "tls_handshake::TlsHeartbeatMessageType",
                       "tls_handshake::TlsCompressionID", "tls_ec::NamedGroup", "tls_extensions::CertificateStatusType"]
+
+# further IANA assignments the crate does not define today; used only if a constant with that name appears later
+IANA_MORE = {
+ "tls_extensions::TlsExtensionType": {"compress_certificate": 27, "delegated_credential": 34, "quic_transport_parameters": 57, "ticket_request": 58, "tls_lts": 26},
+ "tls_handshake::TlsHandshakeType": {"supplemental_data": 23, "compressed_certificate": 25, "message_hash": 254},
+ "tls_alert::TlsAlertDescription": {"no_application_protocol": 120, "ech_required": 121},
+ "tls_sign_hash::SignatureScheme": {"ecdsa_brainpoolP256r1tls13_sha256": 0x081a},
+ "tls_ec::NamedGroup": {"gc256a": 34, "x25519mlkem768": 4588, "secp256r1mlkem768": 4587},
+}
